@@ -41,7 +41,7 @@ theorem gen_czt_glue (n M L : Nat) : cztGlueGen n M L = cztGlue n M L := by
 theorem gen_czt_ranges (n M L : Nat) :
     cztJ1Hi n M L - (cztGlueGen n M L).j1Lo = (cztGlueGen n M L).h1Hi - (cztGlueGen n M L).h1Lo ∧
     cztJ2Hi n M L - (cztGlueGen n M L).j2Lo = (cztGlueGen n M L).h2Hi - (cztGlueGen n M L).h2Lo := by
-  constructor <;> simp only [cztJ1Hi, cztJ2Hi, cztGlueGen] <;> omega
+  constructor <;> simp only [cztJ1Hi, cztJ2Hi, cztGlueGen, cztGlue, cztStart, cen] <;> omega
 
 /-- the shift is subtracted from the output AND the input coordinate vector; chirps `a`, `b` are `exp(−iπαx²)`, the
 kernel is `exp(+iπαj²)`; `b` carries `√α`; `H = fft(h)` -/
